@@ -127,9 +127,16 @@ impl Scenario for C04 {
             prog::spoil_guard_costs(rng, &mut g, 3);
         }
         let entropy = if rng.bool() { EntropyPlan::Zero } else { EntropyPlan::Prng(rng.next_u64()) };
-        let reference = run_once(&g.prog, &g.env, flags, 0, &AllocCfg::unlimited(), &entropy, 100_000);
+        // 1/4 of the cases: an atom-heavy host allocator (unrelated heap atoms allocated first)
+        let junk = if rng.chance(1, 4) { 20 + rng.below(400) as u32 } else { 0 };
+        let base = AllocCfg {
+            junk_atoms: junk,
+            ..AllocCfg::unlimited()
+        };
+        let reference = run_once(&g.prog, &g.env, flags, 0, &base, &entropy, 100_000);
         let traj = trajectory(&reference);
-        let (fault, budget, alloc) = place_fault(rng, &traj);
+        let (fault, budget, mut alloc) = place_fault(rng, &traj);
+        alloc.junk_atoms = junk;
         Case04 {
             prog: g.prog.compact(),
             env: g.env,
@@ -379,7 +386,10 @@ impl Scenario for C08 {
             cfg.max_depth = cfg.max_depth.min(4);
         }
         // consensus mode, pre-hard-fork cost model
-        let flags = prog::random_flags(rng, false, false) & !(F_NO_UNKNOWN_OPS | F_NEW_COST_MODEL);
+        let flags = (prog::random_flags(rng, false, false) & !(F_NO_UNKNOWN_OPS | F_NEW_COST_MODEL)) | if rng.bool() { F_ENABLE_GC } else { 0 };
+        if rng.chance(1, 2) {
+            cfg.families |= fam::GCSHAPES;
+        }
         let mut g = prog::gen_program(rng, &cfg);
         if !g.guard_cost_atoms.is_empty() {
             prog::calibrate_guards(&mut g, flags);
@@ -628,7 +638,10 @@ impl Scenario for C31 {
             cfg.families &= !fam::BLS;
         }
         let strict = rng.chance(1, 4);
-        let flags = prog::random_flags(rng, true, strict);
+        let flags = prog::random_flags(rng, true, strict) | if rng.chance(1, 3) { F_ENABLE_GC } else { 0 };
+        if rng.chance(1, 3) {
+            cfg.families |= fam::GCSHAPES;
+        }
         // target: (c G1 (c G2 ... (q . X)))  -- every guard result is visible in the value
         let build = |rng: &mut Rng| -> (GenProg, u32) {
             let mut g;
